@@ -8,3 +8,6 @@ int mode(int i) { return (i >= 0 && i < sizeof(modes)) ? modes[i] : 0; }
 int st = 0;   // self-test of the check: 2 = the verb "m" issues only two of its three commands
 void set_st(int s) { st = s; }
 int query_st() { return st; }
+int fl = 0;   // flags word the special first lines `i` / `g` pass to input_to() / get_char()
+void set_fl(int f) { fl = f; }
+int query_fl() { return fl; }
